@@ -42,7 +42,13 @@ def run(ctx):
                 'index / mixed, repeated names, negative and out-of-range insertion indices; real vs model (exact). '
                 'Non-trivial: at least 2 data rows.')
     ctx.assumptions += ['header cells are text; str() of header cells; Python list.insert / sorted / zip_longest semantics']
-    ctx.prove(['PetlProofs.Props.C12'], REQUIRED)
+    from translators import argforms as _af
+    try:
+        _info = _af.generate()
+        ctx.bridge('translator: truthiness tests on selection-like arguments in %d functions (%d sites)' % (_info['functions'], len(_info['sites'])), True)
+    except Exception as e:   # noqa
+        ctx.bridge('translator: argument-form sites extracted', False, repr(e))
+    ctx.prove(['PetlProofs.Props.C12', 'PetlProofs.Props.ArgForms'], REQUIRED + ['Petl.ArgForms.selection_arguments_not_tested_by_truthiness'])
     rng = ctx.rng
     n = 1200 if ctx.thorough() else 200
     jobs = []
